@@ -1,4 +1,197 @@
-//! parser suites (filled in below)
-pub fn handle(_f: &[&str]) -> Option<String> {
-    None
+//! parser suites: `parse <hex>`, `tlf <hex>`, and the printers of parsed values
+use crate::{hex, nonempty, unhex};
+use sml_rs::parser::common::{CloseResponse, ListEntry, ListType, OpenResponse, Status, Time, Value};
+use sml_rs::parser::complete::{self, File, GetListResponse, Message, MessageBody};
+use sml_rs::parser::streaming::{self, ParseEvent, Parser};
+use sml_rs::parser::{ParseError, TlfParseError};
+use std::panic::{catch_unwind, AssertUnwindSafe};
+
+fn opt<T>(x: &Option<T>, f: impl Fn(&T) -> String) -> String {
+    match x {
+        None => "~".to_string(),
+        Some(v) => f(v),
+    }
+}
+fn ob(x: &Option<&[u8]>) -> String {
+    opt(x, |v| hex(v))
+}
+fn time_str(t: &Time) -> String {
+    match t {
+        Time::SecIndex(n) => format!("T{:x}", n),
+    }
+}
+fn status_str(s: &Status) -> String {
+    match s {
+        Status::Status8(n) => format!("S8:{:x}", n),
+        Status::Status16(n) => format!("S16:{:x}", n),
+        Status::Status32(n) => format!("S32:{:x}", n),
+        Status::Status64(n) => format!("S64:{:x}", n),
+    }
+}
+fn sx(v: i64) -> String {
+    if v < 0 {
+        format!("-{:x}", (v as i128).unsigned_abs())
+    } else {
+        format!("{:x}", v)
+    }
+}
+fn value_str(v: &Value) -> String {
+    match v {
+        Value::Bool(b) => format!("B{}", *b as u8),
+        Value::Bytes(b) => format!("Y{}", hex(b)),
+        Value::I8(x) => format!("I8:{}", sx(*x as i64)),
+        Value::I16(x) => format!("I16:{}", sx(*x as i64)),
+        Value::I32(x) => format!("I32:{}", sx(*x as i64)),
+        Value::I64(x) => format!("I64:{}", sx(*x)),
+        Value::U8(x) => format!("U8:{:x}", x),
+        Value::U16(x) => format!("U16:{:x}", x),
+        Value::U32(x) => format!("U32:{:x}", x),
+        Value::U64(x) => format!("U64:{:x}", x),
+        Value::List(ListType::Time(t)) => format!("L({})", time_str(t)),
+    }
+}
+fn le_str(e: &ListEntry) -> String {
+    format!(
+        "(E {} {} {} {} {} {} {})",
+        hex(e.obj_name),
+        opt(&e.status, status_str),
+        opt(&e.val_time, time_str),
+        opt(&e.unit, |u| format!("{:x}", u)),
+        opt(&e.scaler, |s| sx(*s as i64)),
+        value_str(&e.value),
+        ob(&e.value_signature)
+    )
+}
+fn open_str(o: &OpenResponse) -> String {
+    format!(
+        "(O {} {} {} {} {} {})",
+        ob(&o.codepage),
+        ob(&o.client_id),
+        hex(o.req_file_id),
+        hex(o.server_id),
+        opt(&o.ref_time, time_str),
+        opt(&o.sml_version, |v| format!("{:x}", v))
+    )
+}
+fn close_str(c: &CloseResponse) -> String {
+    format!("(C {})", ob(&c.global_signature))
+}
+fn glr_str(g: &GetListResponse) -> String {
+    format!(
+        "(G {} {} {} {} [{}] {} {})",
+        ob(&g.client_id),
+        hex(g.server_id),
+        ob(&g.list_name),
+        opt(&g.act_sensor_time, time_str),
+        g.val_list.iter().map(le_str).collect::<Vec<_>>().join(" "),
+        ob(&g.list_signature),
+        opt(&g.act_gateway_time, time_str)
+    )
+}
+fn msg_str(m: &Message) -> String {
+    let b = match &m.message_body {
+        MessageBody::OpenResponse(o) => open_str(o),
+        MessageBody::CloseResponse(c) => close_str(c),
+        MessageBody::GetListResponse(g) => glr_str(g),
+    };
+    format!("(M {} {:x} {:x} {})", hex(m.transaction_id), m.group_no, m.abort_on_error, b)
+}
+pub fn perr_str(e: &ParseError) -> String {
+    match e {
+        ParseError::LeftoverInput => "Leftover".to_string(),
+        ParseError::UnexpectedEOF => "EOF".to_string(),
+        ParseError::InvalidTlf(t) => format!(
+            "Tlf:{}",
+            match t {
+                TlfParseError::TlfLengthOverflow => "Overflow",
+                TlfParseError::TlfReserved => "Reserved",
+                TlfParseError::TlfLengthUnderflow => "Underflow",
+                TlfParseError::TlfNextByteTypeMismatch => "NextByte",
+                TlfParseError::TlfInvalidTy => "InvalidTy",
+            }
+        ),
+        ParseError::TlfMismatch(_) => "Mismatch".to_string(),
+        ParseError::CrcMismatch => "Crc".to_string(),
+        ParseError::MsgEndMismatch => "MsgEnd".to_string(),
+        ParseError::UnexpectedVariant => "Variant".to_string(),
+    }
+}
+pub fn file_str(f: &File) -> String {
+    format!("ok:{}", nonempty(f.messages.iter().map(msg_str).collect::<Vec<_>>().join(" ")))
+}
+pub fn event_str(e: &ParseEvent) -> String {
+    match e {
+        ParseEvent::MessageStart(m) => {
+            let b = match &m.message_body {
+                streaming::MessageBody::OpenResponse(o) => open_str(o),
+                streaming::MessageBody::CloseResponse(c) => close_str(c),
+                streaming::MessageBody::GetListResponse(g) => format!(
+                    "(GS {} {} {} {} {:x})",
+                    ob(&g.client_id),
+                    hex(g.server_id),
+                    ob(&g.list_name),
+                    opt(&g.act_sensor_time, time_str),
+                    g.num_vals
+                ),
+            };
+            format!("(MS {} {:x} {:x} {})", hex(m.transaction_id), m.group_no, m.abort_on_error, b)
+        }
+        ParseEvent::GetListResponseEnd(g) => {
+            format!("(GE {} {})", ob(&g.list_signature), opt(&g.act_gateway_time, time_str))
+        }
+        ParseEvent::ListEntry(e) => le_str(e),
+    }
+}
+
+pub fn complete_str(bs: &[u8]) -> String {
+    match catch_unwind(|| complete::parse(bs).map(|f| file_str(&f))) {
+        Ok(Ok(s)) => s,
+        Ok(Err(e)) => format!("err:{}", perr_str(&e)),
+        Err(_) => "P".to_string(),
+    }
+}
+
+/// items up to the first None (at most |bs|+2 calls), then `extra` further calls
+pub fn stream_str(bs: &[u8], extra: usize) -> String {
+    let mut p = Parser::new(bs);
+    let mut items = Vec::new();
+    let mut ended = false;
+    let mut panicked = false;
+    for _ in 0..bs.len() + 2 + extra {
+        match catch_unwind(AssertUnwindSafe(|| p.next().map(|r| r.map(|e| event_str(&e))))) {
+            Ok(None) => {
+                ended = true;
+                break;
+            }
+            Ok(Some(Ok(s))) => items.push(s),
+            Ok(Some(Err(e))) => items.push(format!("err:{}", perr_str(&e))),
+            Err(_) => {
+                items.push("P".to_string());
+                panicked = true;
+                break;
+            }
+        }
+    }
+    let mut extras = Vec::new();
+    if ended && !panicked {
+        for _ in 0..extra {
+            match catch_unwind(AssertUnwindSafe(|| p.next().map(|r| r.map(|e| event_str(&e))))) {
+                Ok(None) => extras.push("-".to_string()),
+                Ok(Some(Ok(s))) => extras.push(s),
+                Ok(Some(Err(e))) => extras.push(format!("err:{}", perr_str(&e))),
+                Err(_) => extras.push("P".to_string()),
+            }
+        }
+    }
+    format!("{}|{}", nonempty(items.join(";")), nonempty(extras.join(";")))
+}
+
+pub fn handle(f: &[&str]) -> Option<String> {
+    match f {
+        ["parse", h] => {
+            let bs = unhex(h);
+            Some(format!("{} # {}", complete_str(&bs), stream_str(&bs, 3)))
+        }
+        _ => None,
+    }
 }
